@@ -746,6 +746,9 @@ def check_trace_property(prop, tier, seed, work, replay=None, scale=1.0):
             elif rec["reason"] == "equal-observer":
                 # Scalar.Equal() says a scalar differs from the decoding of its own encoding: C13's observer
                 (violations if prop in ("C13", "C10") else inconclusive).append(rec)
+            elif rec["reason"] == "element-encode-observer":
+                # Element.Encode() (part of every observation) disagrees with the stored coordinates: C04's observer
+                (violations if prop in ("C04", "C10") else inconclusive).append(rec)
             elif rec["reason"] == "isidentity-observer":
                 # IsIdentity() (part of every observation) disagrees with the representation that was put in: C05's observer
                 (violations if prop in ("C05", "C10") else inconclusive).append(rec)
